@@ -199,6 +199,31 @@ func (x *Exec) eval(env *SpecEnv, e Expr) SVal {
 		v := x.eval(env, e.Val)
 		return x.eval(env.with(e.Name, v), e.Body)
 	case *EUnary:
+		if e.Op == "&" {
+			// address of a field of a heap object: &p.f
+			sel, ok := e.X.(*ESel)
+			if !ok {
+				sfail("& needs a field selection")
+			}
+			base := x.eval(env, sel.X)
+			pt, ok := base.T.G.Underlying().(*types.Pointer)
+			if !ok {
+				sfail("& on a field of a non-pointer")
+			}
+			st, ok := pt.Elem().Underlying().(*types.Struct)
+			if !ok {
+				sfail("& on a field of a non-struct")
+			}
+			path, ft := findField(st, sel.Sel)
+			if path == nil {
+				sfail("no field %s", sel.Sel)
+			}
+			pl := x.ptrPlace(base.V, pt.Elem())
+			for _, i := range path {
+				pl = x.subPlace(pl, i)
+			}
+			return SVal{VPtr{pl}, goT(types.NewPointer(ft))}
+		}
 		v := x.eval(env, e.X)
 		switch e.Op {
 		case "!":
